@@ -501,6 +501,7 @@ type GrowOpts struct {
 	ForkEvery int  // roughly one fork per this many blocks (0 = 6)
 	MinerPool []types.Address
 	LongFork  bool // allow forking far back
+	Kinds     []string // corruption kinds to draw from (default: all)
 }
 
 // Grow extends the tree by o.Blocks valid blocks, forking now and then, and
@@ -546,7 +547,11 @@ func (t *Tree) Grow(e *sim.Env, o GrowOpts) {
 			return
 		}
 		victim := cands[e.Intn(len(cands))]
-		kind := CorruptKinds[e.Intn(len(CorruptKinds))]
+		kinds := o.Kinds
+		if len(kinds) == 0 {
+			kinds = CorruptKinds
+		}
+		kind := kinds[e.Intn(len(kinds))]
 		bad := t.Corrupt(e, victim, kind, o.Block.Now)
 		if bad == nil {
 			e.Probe("corrupt_skipped_" + kind)
@@ -574,4 +579,40 @@ func (n *Node) Describe() string {
 		s += " on-invalid"
 	}
 	return s
+}
+
+// MakeDominant extends the heaviest valid chain until it is sufficiently
+// heavier than every valid block that is not one of its ancestors, so that
+// every honest node that knows the whole tree must end on it whatever it saw
+// first. It returns the dominant tip.
+func (t *Tree) MakeDominant(e *sim.Env, o BlockOpts) *Node {
+	h := t.Heaviest()
+	for i := 0; i < 8; i++ {
+		ok := true
+		for _, n := range t.Nodes {
+			if !n.Valid() || n.IsAncestorOf(h) {
+				continue
+			}
+			if !h.L.State.SufficientlyHeavierThan(n.L.State) {
+				ok = false
+				break
+			}
+		}
+		if ok {
+			return h
+		}
+		h = t.ExtendHeaderOnly(e, h, o)
+	}
+	return h
+}
+
+// KindsNoFuture is CorruptKinds without the clock-dependent one.
+func KindsNoFuture() []string {
+	var ks []string
+	for _, k := range CorruptKinds {
+		if k != "ts_future" {
+			ks = append(ks, k)
+		}
+	}
+	return ks
 }
